@@ -1,7 +1,14 @@
 import SamplyModel.Proto
 import SamplyModel.Model.AsmDecode
+import SamplyModel.Model.AsmBytes
 /-!
 Line protocol for C20 (see `harness/src/bin/c20.rs` for the op lines).
+
+`arch <s>` is the string `BinaryImage::arch()` returned for the loaded binary (observed by the harness); the model
+matches it as the code does (`archOfName`). `truearch <s>` is the architecture according to the object file's own
+header (harness's parse with the `object` crate; for a JITDUMP the machine the generator wrote); it is what the
+judge and the decoder oracle use. Corpus files written before the improvement round have no `truearch` line: the
+judge then falls back to the canonical reading of `arch`.
 
 model out:  `resp <startAddress> <size> <arch>` / `offs <o>[!] …` / `bad <hex> …` / `fp <h> …`
             | `err:<notfound|range|parse|arch>` | `panic`
@@ -12,7 +19,11 @@ namespace C20
 open Asm Proto
 
 structure Case where
-  arch : Arch := .unknown
+  archName : Option String := none
+  tarch : Option Arch := none
+  jit : Bool := false
+  jents : Array JitEntry := #[]
+  flen : Nat := 0
   req : Req := ⟨0, 0, false⟩
   sym : Option Sym := none
   base : Nat := 0
@@ -32,6 +43,15 @@ def parseArch (s : String) : Arch :=
   else if s = "arm" then .arm
   else .unknown
 
+/-- the architecture the model decodes with: the code's own matching of the observed string -/
+def Case.arch (c : Case) : Arch := archOfName c.archName
+
+/-- the architecture the judge and the oracle use: the object file's header -/
+def Case.specArch (c : Case) : Arch :=
+  match c.tarch with
+  | some a => a
+  | none => parseArch (c.archName.getD "none")
+
 def parseDec (c : Char) : Dec :=
   if c = 'x' then .exhausted
   else if c = 'i' then .invalid
@@ -44,7 +64,12 @@ def parseRegion (a s f d : String) : Region :=
 
 def parseLine (c : Case) (l : String) : Case :=
   match words l with
-  | ["arch", a] => { c with arch := parseArch a }
+  | ["arch", a] => { c with archName := if a = "none" then none else some a }
+  | ["truearch", a] => { c with tarch := some (parseArch a) }
+  | ["kind", "jit"] => { c with jit := true }
+  | ["kind", _] => c
+  | ["jent", r, o, l] => { c with jents := c.jents.push ⟨nat! r, nat! o, nat! l⟩ }
+  | ["flen", n] => { c with flen := nat! n }
   | ["req", a, s, k] => { c with req := ⟨nat! a, nat! s, k = "1"⟩ }
   | ["sym", "none"] => { c with sym := none }
   | ["sym", a, "none"] => { c with sym := some ⟨nat! a, none⟩ }
@@ -56,7 +81,9 @@ def parseLine (c : Case) (l : String) : Case :=
   | ["slice", r, n] => { c with slice := some (nat! r, nat! n) }
   | ["win", lo, h] => { c with lo := nat! lo, win := (hexBytes h).toArray }
   | ["oracle", "-"] => { c with oracle := #[] }
-  | ["oracle", o] => { c with oracle := (o.toList.map parseDec).toArray }
+  | ["oracle", o] =>
+    -- `?` = the harness saw a decoded length outside 1..15 or one that differs from `inst.len()`
+    { c with oracle := (o.toList.map parseDec).toArray, bad := c.bad || o.toList.contains '?' }
   | "ref" :: toks => { c with ref := toks.toArray }
   | "note" :: _ => c
   | "file" :: _ => c
@@ -64,6 +91,12 @@ def parseLine (c : Case) (l : String) : Case :=
   | "data" :: _ => c
   | "bss" :: _ => c
   | "fsym" :: _ => c
+  | "bsym" :: _ => c
+  | "rec" :: _ => c
+  | "skip" :: _ => c
+  | "member" :: _ => c
+  | "pre" :: _ => c
+  | "fpmode" :: _ => c
   | [] => c
   | _ => { c with bad := true }
 
@@ -73,6 +106,13 @@ def Case.dec (c : Case) (p : Nat) : Dec :=
   match c.oracle[p]? with
   | some d => d
   | none => .exhausted
+
+/-- `Case.dec` is the oracle its table denotes (`decOfTable`, about which `C20_table_oracle` speaks) -/
+theorem Case.dec_eq (c : Case) : c.dec = decOfTable c.oracle.toList := by
+  funext p
+  unfold Case.dec decOfTable
+  rw [Array.getElem?_toList]
+  cases c.oracle[p]? <;> rfl
 
 def Case.img (c : Case) : Image := ⟨c.base, c.secs.toList, c.segs.toList⟩
 
@@ -85,21 +125,23 @@ def joinOr (xs : List String) : String := if xs.isEmpty then "-" else " ".interc
 def model (ls : List String) : List String :=
   let c := parse ls
   if c.bad then ["bad-op"] else
-  match query c.arch c.img c.sym c.req c.dec with
-  | .panic => ["panic"]
-  | .nofuel => ["nofuel"]
-  | .err .notFound => ["err:notfound"]
-  | .err .range => ["err:range"]
-  | .err .parse => ["err:parse"]
-  | .err .arch => ["err:arch"]
-  | .resp rel fo n items size =>
+  let out :=
+    if c.jit then queryJit c.arch c.jents.toList c.flen c.sym c.req c.dec
+    else some (query c.arch c.img c.sym c.req c.dec)
+  match out with
+  | none => ["err:io"]
+  | some .panic => ["panic"]
+  | some .nofuel => ["nofuel"]
+  | some (.err .notFound) => ["err:notfound"]
+  | some (.err .range) => ["err:range"]
+  | some (.err .parse) => ["err:parse"]
+  | some (.err .arch) => ["err:arch"]
+  | some (.resp rel fo n items size) =>
     if c.slice ≠ some (rel, n) ∨ c.lo ≠ fo then [s!"err:harness-slice model wants rel={rel} fileoff={fo} len={n}"] else
     match fileSlice c.lo c.win.toList fo n with
     | none => ["err:window"]
     | some bytes =>
-      let arr := bytes.toArray
-      let bad := items.filter (·.inv) |>.map fun it =>
-        bytesHex (arr.extract it.off (it.off + c.arch.adjust)).toList
+      let bad := items.filter (·.inv) |>.map fun it => bytesHex (shown bytes c.arch.adjust it.off)
       let fps := items.filter (!·.inv) |>.map fun it =>
         match c.ref[it.off]? with
         | some f => f
@@ -138,17 +180,63 @@ def walk (dec : Nat → Dec) (adjust limit : Nat) : Option (Item × Nat) → Lis
       | some s =>
         if s = 0 then .error s!"zero-length step at {it.off}" else walk dec adjust limit (some (it, s)) rest
 
+/-- the architecture names for which `/asm/v1` has a decoder (documented behaviour of the API) -/
+def supportedName (n : Option String) : Bool :=
+  match n with
+  | some s => ["x86", "x86_64", "x86_64h", "arm64", "arm64e", "arm"].contains s
+  | none => false
+
+/-- `OracleOK ∧ OracleTail` for the tabulated oracle of the case (decidable; vacuous without a slice) -/
+def oracleAssumptionsHold (c : Case) : Bool :=
+  match c.slice with
+  | none => true
+  | some (_, n) => tableOk c.specArch.adjust n c.oracle.toList 0
+
+/-- Declarative file offset of the aligned start: the file offset of the section that contains the address plus
+the address's offset into that section (`C20_bytes_section`). `none` when not applicable: JITDUMP, no slice, a
+section without file data, or a section whose mapping differs from its segment's. The judge requires the window of the case to start there, so "the file's bytes at that
+address" is checked against a rule that does not mention segments (the mechanism prefers segments). -/
+def sectionOffset (c : Case) : Option Nat :=
+  if c.jit then none else
+  match c.slice with
+  | none => none
+  | some (rel, _) =>
+    match containing c.secs.toList (c.base + rel) with
+    | none => none
+    | some sec =>
+      -- only where segment and section describe the same mapping (hypothesis of `C20_bytes_section`); it fails
+      -- e.g. for the non-allocated sections with address 0 (.comment, .debug_*) that the code's "first section
+      -- containing the address" rule finds for addresses inside the ELF header
+      let consistent : Bool := match containing c.segs.toList (c.base + rel) with
+        | none => true
+        | some seg => decide (seg.addr ≤ sec.addr) && seg.fileOff + (sec.addr - seg.addr) == sec.fileOff
+      match sec.dataLen with
+      | none => none
+      | some d => if d == 0 || !consistent then none else some (sec.fileOff + (c.base + rel - sec.addr))
+
 def judge (ops impl : List String) : Bool × String :=
   let c := parse ops
   if c.bad then (false, "bad-op") else
+  -- 0. the decoder oracle of this case satisfies the assumptions of the theorems (OracleOK, OracleTail)
+  if ¬ oracleAssumptionsHold c then
+    (false, "assumption violated: the decoder oracle reports an instruction of length 0 or one that extends past the slice, or reports 'invalid' (not 'exhausted') with less than one resynchronisation unit of input left")
+  else if (match sectionOffset c with | some o => o != c.lo | none => false) then
+    (false, s!"reference: the window of the case starts at file offset {c.lo}, but the section containing the start address places it at {(sectionOffset c).getD 0} (segment-based and section-based file offsets differ)")
+  else
   match impl with
   | ["panic"] =>
-    if c.base + specStart c.arch c.req.start > u64max then
+    if c.base + specStart c.specArch c.req.start > u64max then
       (false, "implementation panicked: image base + start address exceeds 2^64 (u64 overflow in read_bytes_at_relative_address)")
     else (false, "implementation panicked")
   | [e] =>
     if e.startsWith "err:" ∧ e ≠ "err:badjson" ∧ e ≠ "err:nobinary" ∧ e ≠ "err:other" then
-      (true, "error response (the statement is about requests that succeed)")
+      -- An error is accepted when the file has no bytes for the aligned start, when the object's architecture has
+      -- no decoder, or when the binary was loaded under an architecture *name* outside the API's vocabulary
+      -- (Mach-O `i386`, `arm64v8`, `armv7…`: documented limitation, see notes/C20.md). Otherwise - in particular
+      -- when the loaded image reports no architecture at all for an x86 / ARM object - the request must succeed.
+      if c.slice.isSome ∧ c.specArch ≠ .unknown ∧ (supportedName c.archName ∨ c.archName.isNone) then
+        (false, s!"availability: the request failed ({e}) although the aligned start address maps to bytes of the file and the architecture is supported")
+      else (true, "error response (the statement is about requests that succeed)")
     else (false, s!"unexpected output {e}")
   | [r, o, b, f] =>
     match words r, words o, words b, words f with
@@ -162,10 +250,10 @@ def judge (ops impl : List String) : Bool × String :=
       | none => (false, "unparsable offsets")
       | some items =>
         let limit := specLen c.req (fnEnd c.sym)
-        let adjust := c.arch.adjust
+        let adjust := c.specArch.adjust
         -- 1. offset 0 is the alignment-adjusted start address
-        if sa ≠ specStart c.arch c.req.start then
-          (false, s!"startAddress {sa} is not the alignment-adjusted start {specStart c.arch c.req.start}")
+        if sa ≠ specStart c.specArch c.req.start then
+          (false, s!"startAddress {sa} is not the alignment-adjusted start {specStart c.specArch c.req.start}")
         else match c.slice with
         | none => (false, "a listing was returned although no bytes of the file correspond to the start address")
         | some (rel, n) =>
@@ -189,7 +277,7 @@ where
     let val := items.filter (!·.inv)
     if inv.length ≠ btoks.length ∨ val.length ≠ ftoks.length then (false, "listing/fingerprint count mismatch") else
     let badOk := (inv.zip btoks).all fun (it, h) =>
-      h == bytesHex (c.win.extract it.off (it.off + c.arch.adjust)).toList
+      h == bytesHex (c.win.extract it.off (it.off + c.specArch.adjust)).toList
     let fpOk := (val.zip ftoks).all fun (it, h) =>
       match c.ref[it.off]? with
       | some f => f == h
